@@ -132,6 +132,61 @@ fn repeated(o: &Opened, kv: &Kv, a: &[u8], b: &[u8], which: usize, ev: &mut Ev) 
     }
 }
 
+/// a random sequence of 2..6 bound-setter calls in any order; per side the LAST setting wins
+fn setter_sequence(o: &Opened, kv: &Kv, bounds: &[Vec<u8>], rng: &mut Rng, ev: &mut Ev) {
+    let n = 2 + rng.usize(5);
+    let calls: Vec<(usize, Vec<u8>)> = (0..n).map(|_| (rng.usize(4), rng.pick(bounds).clone())).collect();
+    let mut lo = Lo::None;
+    let mut hi = Hi::None;
+    for (kind, b) in &calls {
+        match kind {
+            0 => lo = Lo::Ge(b.clone()),
+            1 => lo = Lo::Gt(b.clone()),
+            2 => hi = Hi::Le(b.clone()),
+            _ => hi = Hi::Lt(b.clone()),
+        }
+    }
+    macro_rules! apply {
+        ($b:expr) => {{
+            let mut b = $b;
+            for (kind, x) in &calls {
+                b = match kind {
+                    0 => b.ge(x),
+                    1 => b.gt(x),
+                    2 => b.le(x),
+                    _ => b.lt(x),
+                };
+            }
+            b
+        }};
+    }
+    let api = rng.usize(5);
+    let got: Vec<(Vec<u8>, u64)> = match api {
+        0 => apply!(o.raw.range()).into_stream().into_byte_vec(),
+        1 => apply!(o.raw.search(AlwaysMatch)).into_stream().into_byte_vec(),
+        2 => apply!(o.map.range()).into_stream().into_byte_vec(),
+        3 => apply!(o.set.range()).into_stream().into_bytes().into_iter().map(|k| {
+            let v = kv.binary_search_by(|(x, _)| x.cmp(&k)).ok().map(|i| kv[i].1).unwrap_or(0);
+            (k, v)
+        }).collect(),
+        _ => {
+            let mut s = apply!(o.raw.search_with_state(AlwaysMatch)).into_stream();
+            let mut out = vec![];
+            while let Some((k, v, _)) = s.next() {
+                out.push((k.to_vec(), v.value()));
+            }
+            out
+        }
+    };
+    ev.eval(None);
+    ev.count("setter-sequences");
+    let want = rangeq::expected(kv, &lo, &hi, &|_| true);
+    if got.len() != want.len() || !got.iter().zip(want.iter()).all(|(g, w)| g.0 == w.0 && g.1 == w.1) {
+        let show: Vec<String> = calls.iter().map(|(k, b)| format!("{}({})", ["ge", "gt", "le", "lt"][*k], crate::json::show_bytes(b))).collect();
+        ev.violate("repeated-bound", format!("bound setters called as {} through {}: got {} entries, last-setting-per-side-wins ({}) gives {}", show.join("."), ["Fst::range", "Fst::search", "Map::range", "Set::range", "Fst::search_with_state"][api], got.len(), rangeq::show_q(&lo, &hi), want.len()), desc(kv, &lo, &hi, "setter sequence"));
+    }
+}
+
 fn bounds_for(kv: &Kv, universe: &[Vec<u8>], rng: &mut Rng) -> Vec<Vec<u8>> {
     let mut b: Vec<Vec<u8>> = universe.to_vec();
     let picks: Vec<usize> = if kv.is_empty() { vec![] } else { vec![0, kv.len() - 1, kv.len() / 2, rng.usize(kv.len())] };
@@ -204,6 +259,11 @@ fn all_queries(bytes: &[u8], kv: &Kv, bounds: &[Vec<u8>], full: bool, rng: &mut 
         let b = rng.pick(bounds).clone();
         if let Err(p) = guard(|| repeated(&o, kv, &a, &b, i, ev)) {
             ev.violate("range-panic", format!("repeated-bound query panicked: {}", p), J::Null);
+        }
+    }
+    for _ in 0..12 {
+        if let Err(p) = guard(|| setter_sequence(&o, kv, bounds, rng, ev)) {
+            ev.violate("range-panic", format!("a sequence of bound setters panicked: {}", p), J::Null);
         }
     }
 }
@@ -373,7 +433,7 @@ pub fn run(ctx: &Ctx) -> i32 {
         ev.add("hook:stream-invariant-checks", hooks);
     });
     let mut floors: Vec<(&str, u64)> = vec![];
-    for c in ["lo:empty-inclusive", "lo:empty-exclusive", "lo:exact-key-inclusive", "lo:exact-key-exclusive", "lo:nonfinal-prefix-inclusive", "lo:nonfinal-prefix-exclusive", "lo:past-leaf-inclusive", "lo:past-leaf-exclusive", "lo:diverges-larger-sibling-inclusive", "lo:diverges-larger-sibling-exclusive", "lo:diverges-no-larger-sibling-inclusive", "lo:diverges-no-larger-sibling-exclusive", "hi:none", "hi:before-first", "hi:between", "hi:after-last", "hi:exact-key-inclusive", "hi:exact-key-exclusive", "hi:empty-inclusive", "hi:empty-exclusive", "repeated-bound-queries"].iter() {
+    for c in ["lo:empty-inclusive", "lo:empty-exclusive", "lo:exact-key-inclusive", "lo:exact-key-exclusive", "lo:nonfinal-prefix-inclusive", "lo:nonfinal-prefix-exclusive", "lo:past-leaf-inclusive", "lo:past-leaf-exclusive", "lo:diverges-larger-sibling-inclusive", "lo:diverges-larger-sibling-exclusive", "lo:diverges-no-larger-sibling-inclusive", "lo:diverges-no-larger-sibling-exclusive", "hi:none", "hi:before-first", "hi:between", "hi:after-last", "hi:exact-key-inclusive", "hi:exact-key-exclusive", "hi:empty-inclusive", "hi:empty-exclusive", "repeated-bound-queries", "setter-sequences"].iter() {
         floors.push((c, 100));
     }
     finish(
@@ -381,7 +441,7 @@ pub fn run(ctx: &Ctx) -> i32 {
         ev,
         Spec {
             level: "exploration",
-            rule: "one evaluation = one range query (lower in {none,ge,gt} x upper in {none,le,lt} x bound strings) whose full output (keys, values, order, termination) is compared with the model filter, through raw search_with_state (hook H3 checks stack/key-buffer lock step after construction and after every next(); a breach is attached as diagnosis to an output violation and otherwise only recorded) and one of Fst::range / Map::range / Set::range; FSTs: subsets of {a,b}^<=3 (quick: all subsets with <=4 keys + every 10th other; thorough: all 32768) with all pairs of bounds from {a,b}^<=3 + k.00, k.ff, last byte +-1, absent 4-byte strings; deep random maps over 3 symbols (incl. 00/7f/ff) with bounds = keys, prefixes, +-1 mutations, extensions; nodes of fan-out {2,31,32,33,64,200,255,256} at depth 0 and 1 with bounds that diverge at the wide node (child bytes +-1, 00, fe, ff, and extensions); two corpora; repeated-bound settings; non-trivial = every query; distinct = (FST, query) pairs, distinct by construction",
+            rule: "one evaluation = one range query (lower in {none,ge,gt} x upper in {none,le,lt} x bound strings) whose full output (keys, values, order, termination) is compared with the model filter, through raw search_with_state (hook H3 checks stack/key-buffer lock step after construction and after every next(); a breach is attached as diagnosis to an output violation and otherwise only recorded) and one of Fst::range / Map::range / Set::range; FSTs: subsets of {a,b}^<=3 (quick: all subsets with <=4 keys + every 10th other; thorough: all 32768) with all pairs of bounds from {a,b}^<=3 + k.00, k.ff, last byte +-1, absent 4-byte strings; deep random maps over 3 symbols (incl. 00/7f/ff) with bounds = keys, prefixes, +-1 mutations, extensions; nodes of fan-out {2,31,32,33,64,200,255,256} at depth 0 and 1 with bounds that diverge at the wide node (child bytes +-1, 00, fe, ff, and extensions); two corpora; repeated-bound settings and random sequences of 2..6 setter calls in any order (ge/gt/le/lt interleaved, per side the last one wins) through Fst::range, Fst::search, Map::range, Set::range and search_with_state; non-trivial = every query; distinct = (FST, query) pairs, distinct by construction",
             assumptions: vec!["bound classes (lo:*, hi:*) are decided from the inputs alone".into(), "hook H3 (verif_frames) is a read-only view; hook:* counts are recorded only".into()],
             floors,
             exhaustive: Some(!quick),
